@@ -420,7 +420,7 @@ impl<'a, T: Read + Write + Seek> PointCloudWriter<'a, T> {
             Error::invalid("Number of values does not match prototype length")?
         }
 
-        // Go over all values to validate and extract min/max values
+        // Go over all values to validate them before any bounds are touched
         for (i, p) in self.prototype.iter().enumerate() {
             let value = &values[i];
 
@@ -453,7 +453,10 @@ impl<'a, T: Read + Write + Seek> PointCloudWriter<'a, T> {
                 }
                 _ => {}
             }
+        }
 
+        // Go over all values of the accepted point to extract min/max values
+        for (i, p) in self.prototype.iter().enumerate() {
             // Update cartesian bounds
             if p.name == RecordName::CartesianX
                 || p.name == RecordName::CartesianY
